@@ -51,6 +51,16 @@ def walkRedirect (c : TCase) (which : String) : RdSt :=
                    lastStatus := none, lastLoc := none, hadResp := false }
        | _ => s1)
     | "hdr" => (match t.op, t.res with | [_, k, _], ["unit"] => { s1 with addedNames := k.toLower :: s.addedNames } | _, _ => s1)
+    | "hmap" =>
+      -- the accessor's view of the request created for a redirect: the same absences as on the wire
+      (match t.res with
+       | "map" :: _ :: kvs =>
+         let names := (List.range (kvs.length / 2)).map fun i => kvs.getD (2 * i) ""
+         if !s.followed || !(which == "C13" || which == "all") then s1 else
+         if names.contains "cookie" && !s.addedNames.contains "cookie" then { s with fail := some "headers_map() of the request created for the redirect shows the previous request's Cookie header" } else
+         if names.contains "content-length" && !s.addedNames.contains "content-length" then { s with fail := some "headers_map() of the request created for the redirect shows the previous request's Content-Length header" } else
+         if names.contains "authorization" && !s.addedNames.contains "authorization" && !s.keepAuthOk then { s with fail := some "headers_map() of the request created for the redirect shows the previous request's Authorization header although policy / host / scheme do not allow it" } else s1
+       | _ => s1)
     | "resp" =>
       (match t.res with
        | "resp" :: _ :: st' :: ver :: hs =>
